@@ -109,14 +109,15 @@ def _rest_cause(mj, m, kind, group, var):
     if kind != "rest":
         return None
     has_quat = any(int(t) in (0, 1) for t in m.jnt_type)
-    if has_quat and group == "step" and var in ("qvel", "mixed", "params", "ctrl", "act"):
-        # qvel directly; ctrl/act/params reach the next orientation through qacc*dt -> omega_next = 0 + dt*qacc
-        return "quat_integrate-gradient-vanishes-at-zero-angular-velocity"
-    if m.ntendon and np.any(np.asarray(m.tendon_stiffness) > 0) and var in ("dq", "mixed") and \
+    if m.ntendon and np.any(np.asarray(m.tendon_stiffness) > 0) and var in ("dq", "mixed") and not has_quat and \
             group in ("bias_passive", "qacc", "step", "sensordata"):
         return "tendon-spring-gradient-zero-at-rest-length"
-    if has_quat and group == "step" and var == "dq":
-        return "quat_integrate-gradient-vanishes-at-zero-angular-velocity"
+    if has_quat:
+        # identity quaternions / zero angular velocity: math.norm's where-trick returns a zero gradient at 0, which is wrong
+        # for quat_integrate (step, every RK stage) and quat_to_axis_angle (ball-joint actuator length, ball springs)
+        return "quaternion-axis-angle-gradient-singular-at-rest"
+    if m.ntendon and np.any(np.asarray(m.tendon_stiffness) > 0) and var in ("dq", "mixed"):
+        return "tendon-spring-gradient-zero-at-rest-length"
     return None
 
 
@@ -269,7 +270,9 @@ def check_model(R, xml, tags, case, P):
                 err = abs(a - fd1[gi]) / max(scale, abs(a))
                 P.note_max("relerr_%s_fwd" % g, err)
                 nontriv = abs(fd1[gi]) > 1e-7 * (1 + abs(f0[gi]))
-                P.case("|".join([g, vname, "fwd", prof, integ, kind, feat]), nontrivial=bool(nontriv))
+                P.case("|".join([g, vname, "fwd", prof, integ, kind, feat]), nontrivial=bool(nontriv),
+                       sample={"tags": tags, "state_kind": kind, "group": g, "var": vname, "ad": float(a), "fd": float(fd1[gi])}
+                       if (di == 0 and gi == 0) else None)
                 if err > 1e-4:
                     cause = _rest_cause(mj, m, kind, g, vname)
                     if cause:
@@ -330,7 +333,7 @@ def worker(case):
 
 
 def _cases(ctx):
-    n = ctx.pick(10, 160)
+    n = ctx.pick(10, 80)
     cases = []
     for i in range(n):
         cases.append({"key": int(core.stable_hash("C45", ctx.seed, i)), "profile": ["smooth", "smooth", "eqonly", "smooth"][i % 4],
